@@ -33,4 +33,24 @@ def ltParts (ids : Nat → Nat) (a b : List Atom) : Bool := lexLt (atomsKey ids 
 def orderByParts (ids : Nat → Nat) (mods : List (List Atom)) : List (List Atom) :=
   ofList (ltParts ids) mods
 
+/-! ## Lowering order (`hir_lowering.rs` `compile_sources_with_generics_preserved`, /repo 15327a3)
+
+`sorted_sources.sort_by_cached_key(|m| m.pretty_print(heap))`: a *stable* sort of the modules in
+`HashMap` iteration order.  `sSort` is a stable insertion sort for a comparator `lt`; with a comparator
+under which two distinct modules tie, the tied modules keep their input (hash) order. -/
+
+def sIns {α : Type} (lt : α → α → Bool) (x : α) : List α → List α
+  | [] => [x]
+  | y :: ys => if lt x y then x :: y :: ys else y :: sIns lt x ys
+
+/-- stable sort: equal elements stay in input order -/
+def sSort {α : Type} (lt : α → α → Bool) (l : List α) : List α :=
+  l.foldl (fun acc x => sIns lt x acc) []
+
+/-- comparing the name parts pairwise through `zip` and never the lengths (contents compared as
+strings): a module whose path is a proper prefix of another's compares *equal* to it -/
+def zipLt : List (List Nat) → List (List Nat) → Bool
+  | p :: ps, q :: qs => if lexLt p q then true else if lexLt q p then false else zipLt ps qs
+  | _, _ => false
+
 end SamVerif.ErrorSet
